@@ -1,2 +1,100 @@
+/-
+  C13 — request framing: lengths, alignment, and exactly the stub region is sealed.
+-/
 import DpapiNg.Model.RpcClient
 import DpapiNg.Model.Client
+import DpapiNg.Proofs.Slices
+import DpapiNg.Proofs.GkdiRt
+import DpapiNg.Properties.C12
+namespace DpapiNg.C13
+open DpapiNg DpapiNg.Rpc DpapiNg.RpcClient
+
+/-- the body the client puts into a sealed request -/
+def sealedBody (stub : Bytes) (vt : Option Bytes) : Bytes :=
+  let s1 := match vt with
+    | some v => stub ++ Py.zeros (Py.negMod stub.length 4) ++ v
+    | none => stub
+  s1 ++ Py.zeros (Py.negMod s1.length 16)
+
+/-- `_create_request` on an authenticated connection, for every stub length, verification trailer on/off
+    and every signature size: the body is stub ‖ pad4 ‖ vt ‖ pad16, 16-byte aligned; pad_length is exactly
+    the padding added and < 16; auth_len is the signature size; the encrypt offsets delimit exactly the
+    body; the verification trailer starts at the next 4-byte boundary after the stub. -/
+theorem request_layout (a : Auth) (cid op : Nat) (stub : Bytes) (vt : Option Bytes) :
+    ∃ pad, (createRequest (some a) cid op stub vt) =
+      (⟨mkHeader 0 a.headerLen 1 0, some ⟨a.provider, 6, pad, 0, Py.zeros a.headerLen⟩,
+        .request (sealedBody stub vt).length cid op none (sealedBody stub vt)⟩, some (24, 24 + (sealedBody stub vt).length)) ∧
+      pad < 16 ∧ (sealedBody stub vt).length % 16 = 0 ∧
+      (∀ v, vt = some v → (sealedBody stub vt) = stub ++ Py.zeros (Py.negMod stub.length 4) ++ v ++ Py.zeros pad ∧
+        (stub.length + Py.negMod stub.length 4) % 4 = 0 ∧ Py.negMod stub.length 4 < 4) ∧
+      (vt = none → (sealedBody stub vt) = stub ++ Py.zeros pad) := by
+  cases vt with
+  | none =>
+    refine ⟨Py.negMod stub.length 16, ?_, Py.negMod_lt _ 16 (by omega), ?_, ?_, ?_⟩
+    · simp [createRequest, sealedBody]
+    · simp only [sealedBody, List.length_append, Py.zeros_length]; exact Py.negMod_aligned _ 16 (by omega)
+    · intro v hv; cases hv
+    · intro _; rfl
+  | some v =>
+    refine ⟨Py.negMod (stub ++ Py.zeros (Py.negMod stub.length 4) ++ v).length 16, ?_, Py.negMod_lt _ 16 (by omega), ?_, ?_, ?_⟩
+    · simp [createRequest, sealedBody]
+    · simp only [sealedBody, List.length_append, Py.zeros_length]
+      have := Py.negMod_aligned (stub.length + Py.negMod stub.length 4 + v.length) 16 (by omega)
+      simpa [List.length_append] using this
+    · intro v' hv'; cases hv'
+      refine ⟨rfl, Py.negMod_aligned _ 4 (by omega), Py.negMod_lt _ 4 (by omega)⟩
+    · intro h; cases h
+
+/-- alignment facts, for every length (the property's "every residue mod 16") -/
+theorem request_alignment (n : Nat) :
+    (n + Py.negMod n 4) % 4 = 0 ∧ Py.negMod n 4 < 4 ∧ (n + Py.negMod n 16) % 16 = 0 ∧ Py.negMod n 16 < 16 := by
+  unfold Py.negMod; omega
+
+/-- `_prepare_pdu` with a security context: the first 24 bytes (PDU header + request header) and the
+    8-byte security-trailer header of the packed PDU go out unchanged, exactly the bytes between the
+    encrypt offsets are replaced by what the context returns, and the signature follows. -/
+theorem prepare_layout (a : Auth) (sign : Bool) (pdu : Pdu) (s e : Nat) (b0 b : Bytes)
+    (hp : pduPack pdu = .ok b0) (hf : setFragLen b0 = .ok b) :
+    preparePdu (some a) sign pdu (some (s, e)) =
+      .ok (b.take s ++ (a.wrap sign (b.take s) (Py.sliceN b s e) (Py.sliceN b e (e + 8))).1 ++ Py.sliceN b e (e + 8)
+        ++ (a.wrap sign (b.take s) (Py.sliceN b s e) (Py.sliceN b e (e + 8))).2) := by
+  unfold preparePdu
+  simp only [hp, hf, Bind.bind, Except.bind, pure, Except.pure]
+
+/-- frag_len is the size of the PDU as packed -/
+theorem setFragLen_spec (b0 b : Bytes) (h10 : 10 ≤ b0.length) (hlt : b0.length < 65536) (hf : setFragLen b0 = .ok b) :
+    b.length = b0.length ∧ Py.fromLE (Py.sliceN b 8 10) = b0.length ∧ b.take 8 = b0.take 8 ∧ b.drop 10 = b0.drop 10 := by
+  unfold setFragLen at hf
+  rw [C12.le_ok _ 2 (by omega)] at hf
+  simp only [Bind.bind, Except.bind, pure, Except.pure, Except.ok.injEq] at hf
+  subst hf
+  generalize hL : Py.toLE b0.length 2 = L
+  have lL : L.length = 2 := by rw [← hL]; simp
+  have vL : Py.fromLE L = b0.length := by rw [← hL]; exact Py.fromLE_toLE _ 2 (by omega)
+  have lt : (b0.take 8).length = 8 := by rw [List.length_take]; omega
+  refine ⟨by simp [lL]; omega, ?_, ?_, ?_⟩
+  · have : Py.sliceN (b0.take 8 ++ L ++ b0.drop 10) 8 10 = L := by
+      rw [List.append_assoc]; slices0 [lt, lL]
+    rw [this, vL]
+  · rw [List.append_assoc]; slices0 [lt]
+  · rw [List.append_assoc]; slices0 [lt, lL]
+
+/-- reply path: exactly the declared auth padding is stripped before the GetKey result is decoded -/
+theorem getKeyResult_strips_exactly (s pad : Bytes) (hp : pad.length ≠ 0) :
+    Client.processGetKeyResult (s ++ pad) (some pad.length) = Gkdi.getKeyUnpackResponse s ∧
+    Client.processGetKeyResult s (some 0) = Gkdi.getKeyUnpackResponse s ∧
+    Client.processGetKeyResult s none = Gkdi.getKeyUnpackResponse s := by
+  refine ⟨?_, ?_, ?_⟩
+  · unfold Client.processGetKeyResult
+    simp only [hp, ne_eq, not_false_eq_true, if_true]
+    have : (((s ++ pad).length : Nat) : Int) - (pad.length : Int) = ((s.length : Nat) : Int) := by simp
+    rw [this, Py.sliceTo_nat, List.take_left']
+    rfl
+  · unfold Client.processGetKeyResult
+    simp only [ne_eq, not_true_eq_false, if_false]
+    rw [Py.sliceTo_nat, List.take_length]
+  · unfold Client.processGetKeyResult
+    simp only []
+    rw [Py.sliceTo_nat, List.take_length]
+
+end DpapiNg.C13
